@@ -3,6 +3,8 @@ package sim
 import (
 	"fmt"
 
+	v1 "k8s.io/api/core/v1"
+
 	metav1 "k8s.io/apimachinery/pkg/apis/meta/v1"
 
 	asv1 "github.com/pingcap/advanced-statefulset/client/apis/apps/v1"
@@ -90,10 +92,52 @@ func BuildSet(c *SetCfg) *asv1.StatefulSet {
 		}
 		s.Annotations[annPaused] = "true"
 	}
+	applyHostile(s, c)
 	if c.Defaulted {
 		asv1.SetObjectDefaults_StatefulSet(s)
 	}
 	return s
+}
+
+// applyHostile produces objects the shipped CRD schema admits (replicas and
+// revisionHistoryLimit present and >= 0; selector, template, serviceName
+// present) but which no test constructor builds (C15).
+func applyHostile(s *asv1.StatefulSet, c *SetCfg) {
+	switch c.Hostile {
+	case 0:
+		return
+	case 1: // README example: no strategy, no policy
+		s.Spec.PodManagementPolicy = ""
+		s.Spec.UpdateStrategy = asv1.StatefulSetUpdateStrategy{}
+	case 2: // rollingUpdate: {} under RollingUpdate
+		s.Spec.UpdateStrategy = asv1.StatefulSetUpdateStrategy{Type: asv1.RollingUpdateStatefulSetStrategyType, RollingUpdate: &asv1.RollingUpdateStatefulSetStrategy{}}
+	case 3: // rollingUpdate: {} under OnDelete
+		s.Spec.UpdateStrategy = asv1.StatefulSetUpdateStrategy{Type: asv1.OnDeleteStatefulSetStrategyType, RollingUpdate: &asv1.RollingUpdateStatefulSetStrategy{}}
+	case 4: // rollingUpdate: {} with no type
+		s.Spec.UpdateStrategy = asv1.StatefulSetUpdateStrategy{RollingUpdate: &asv1.RollingUpdateStatefulSetStrategy{}}
+	case 5: // negative partition
+		s.Spec.UpdateStrategy = asv1.StatefulSetUpdateStrategy{Type: asv1.RollingUpdateStatefulSetStrategyType, RollingUpdate: &asv1.RollingUpdateStatefulSetStrategy{Partition: int32p(-1 - c.Replicas)}}
+	case 6: // huge partition
+		s.Spec.UpdateStrategy = asv1.StatefulSetUpdateStrategy{Type: asv1.RollingUpdateStatefulSetStrategyType, RollingUpdate: &asv1.RollingUpdateStatefulSetStrategy{Partition: int32p(1 << 30)}}
+	case 7: // unknown strings
+		s.Spec.PodManagementPolicy = "Sideways"
+		s.Spec.UpdateStrategy.Type = "Sometimes"
+	case 8: // empty selector
+		s.Spec.Selector = &metav1.LabelSelector{}
+	case 9: // invalid selector
+		s.Spec.Selector = &metav1.LabelSelector{MatchExpressions: []metav1.LabelSelectorRequirement{{Key: "app", Operator: metav1.LabelSelectorOpIn}}}
+	case 10: // empty template
+		s.Spec.Template = v1.PodTemplateSpec{}
+	case 11: // arbitrary status block
+		s.Status = asv1.StatefulSetStatus{ObservedGeneration: 99, Replicas: -3, ReadyReplicas: 7, CurrentReplicas: -1, UpdatedReplicas: 1 << 30, CurrentRevision: "nonsense", UpdateRevision: "", CollisionCount: int32p(-5)}
+	case 12: // negative partition under OnDelete, unknown policy
+		s.Spec.PodManagementPolicy = "parallel"
+		s.Spec.UpdateStrategy = asv1.StatefulSetUpdateStrategy{Type: asv1.OnDeleteStatefulSetStrategyType, RollingUpdate: &asv1.RollingUpdateStatefulSetStrategy{Partition: int32p(-2)}}
+	case 13: // selector that does not match the template
+		s.Spec.Selector = &metav1.LabelSelector{MatchLabels: map[string]string{"app": "nobody"}}
+	case 14: // expression-only selector with claim templates (no matchLabels)
+		s.Spec.Selector = &metav1.LabelSelector{MatchExpressions: []metav1.LabelSelectorRequirement{{Key: "app", Operator: metav1.LabelSelectorOpExists}}}
+	}
 }
 
 func (c *SetCfg) String() string {
